@@ -306,6 +306,9 @@ where
                                 // We've successfully sent the connection to a worker, so we can stop trying
                                 // to send it to other workers.
                                 has_been_handled = true;
+                                #[cfg(feature = "verif_hooks")]
+                                crate::server::VERIF_DISPATCHED
+                                    .fetch_add(1, std::sync::atomic::Ordering::SeqCst);
                                 break;
                             }
                         }
